@@ -7,6 +7,7 @@ import (
 )
 
 func init() {
+	vpHarnesses["vpC11_O3"] = vpC11_O3
 	vpHarnesses["vpC11_O1"] = vpC11_O1
 	vpHarnesses["vpC11_O2"] = vpC11_O2
 }
@@ -157,4 +158,81 @@ func vpC11_O2() {
 		return
 	}
 	vpAssert("altered or transplanted non-revocation part is rejected", !vpVerifyRobust(proof, s.pk, ctx, nonce))
+}
+
+// C11-O3: histories. After preparing a commitment, the witness is updated
+// (the issuer re-signs the same accumulator at a later time, or revokes another
+// value so that the index grows) and possibly the commitment is prepared
+// again; the proof made afterwards verifies and the verifier reads index and
+// time of the accumulator the witness currently stands at.
+func vpC11_O3() {
+	s := vpRevocableCredential(0, "")
+	w := s.cred.NonRevocationWitness
+	hist := vpChoose("history", 4)
+	if hist != 2 {
+		vpAssert("cache prepared", s.cred.NonrevPrepareCache() == nil)
+	}
+	var newAcc *revocation.Accumulator
+	var upd *revocation.Update
+	var err error
+	if vpBool("revokeOther") {
+		other := vpPrime("eOther", big.NewInt(3), big.NewInt(65521))
+		vpAssume(other.Cmp(w.E) != 0)
+		var ev *revocation.Event
+		newAcc, ev, err = s.acc.Remove(s.sk, other, s.upd.Events[0])
+		vpAssume(err == nil)
+		upd, err = revocation.NewUpdate(s.sk, newAcc, []*revocation.Event{s.upd.Events[0], ev})
+	} else {
+		dt := vpIntRange("dt", 1, 1000000)
+		newAcc = &revocation.Accumulator{Nu: s.acc.Nu, Index: s.acc.Index, Time: s.acc.Time + int64(dt), EventHash: s.acc.EventHash}
+		vpAssume(newAcc.Time > s.acc.Time)
+		upd, err = revocation.NewUpdate(s.sk, newAcc, s.upd.Events)
+	}
+	vpAssume(err == nil)
+	vpAssert("witness update succeeds", w.Update(s.pk, upd) == nil)
+	if hist == 1 {
+		vpAssert("cache prepared again", s.cred.NonrevPrepareCache() == nil)
+	}
+	ctx, nonce := vpBigBits("ctx", 256), vpBigBits("nonce", 80)
+	lo, hi := new(big.Int).Lsh(big.NewInt(1), 581), new(big.Int).Lsh(big.NewInt(1), 591)
+	proof, err := vpProveWith(s.cred, []int{1}, true, ctx, nonce, vpBigRange("r0", lo, hi))
+	vpAssert("proof after the update is created", err == nil && proof != nil)
+	if err != nil {
+		return
+	}
+	vpAssert("proof after the update verifies", vpVerifyRobust(proof, s.pk, ctx, nonce))
+	got := proof.NonRevocationProof.SignedAccumulator.Accumulator
+	cur := w.SignedAccumulator.Accumulator
+	vpAssert("verifier reads the witness's current accumulator index", got != nil && got.Index == cur.Index && got.Index == newAcc.Index)
+	vpAssert("verifier reads the witness's current accumulator time", got != nil && got.Time == cur.Time && got.Time == newAcc.Time)
+}
+
+func init() {
+	vpHarnesses["vpC11_O4"] = vpC11_O4
+}
+
+// C11-O4: a holder without a usable witness attaches a non-revocation part
+// with degenerate commitments C_r = C_u = 0: every reconstructed commitment
+// collapses to 0 whatever the responses are, so the prover can hash zeros into
+// the challenge. Such a part proves nothing and must be rejected.
+func vpC11_O4() {
+	s := vpRevocableCredential(0, "")
+	ctx, nonce := vpBigBits("ctx", 256), vpBigBits("nonce", 80)
+	b, err := s.cred.CreateDisclosureProofBuilder([]int{1}, nil, false)
+	vpAssume(err == nil)
+	// the response of the revocation attribute must look like a witness response (below 2^580)
+	b.attrRandomizers[2] = vpBigBits("r2", 500)
+	lo, hi := new(big.Int).Lsh(big.NewInt(1), 581), new(big.Int).Lsh(big.NewInt(1), 591)
+	commit, err := b.Commit(map[string]*big.Int{"secretkey": vpBigRange("r0", lo, hi)})
+	vpAssume(err == nil)
+	zero := big.NewInt(0)
+	contribs := append(append([]*big.Int{}, commit...), zero, zero, s.acc.Nu, zero, zero, zero)
+	c := createChallenge(ctx, nonce, contribs, false)
+	vpAssume(c.Sign() != 0)
+	proof := b.CreateProof(c).(*ProofD)
+	one := big.NewInt(1)
+	proof.NonRevocationProof = &revocation.Proof{Cr: big.NewInt(0), Cu: big.NewInt(0),
+		Responses:         map[string]*big.Int{"beta": one, "delta": one, "epsilon": one, "zeta": one},
+		SignedAccumulator: &revocation.SignedAccumulator{Data: s.upd.SignedAccumulator.Data, PKCounter: s.upd.SignedAccumulator.PKCounter}}
+	vpAssert("a non-revocation part with degenerate commitments is rejected", !vpVerifyRobust(proof, s.pk, ctx, nonce))
 }
